@@ -131,5 +131,5 @@ Example C21_witness :
   code (exchange (mkcfg None None None None (Some 10) None (Some 1000) None true 1000 0 1 1)) = 0 /\
   srv_recv_exh (exchange (mkcfg None None None None (Some 10) None (Some 999) None true 1000 0 1 1)) = true /\
   code (exchange (mkcfg None None None None (Some 9) None None None true 1000 0 1 1)) = 8 /\
-  forallb op_wf [[1; 1; 5; 1; 7; 9]; [2; 1;30; 0;0; 1;40; 0;0; 1;25; 0;0; 0;0; 0;0; 0; 26; 1; 3; 1]] = true.
+  forallb op_wf [[1; 1; 5; 1; 7; 9]; [2; 1;30; 0;0; 1;40; 0;0; 1;25; 0;0; 0;0; 0;0; 0; 26; 1; 3; 1; 1; 0]] = true.
 Proof. vm_compute. repeat split. Qed.
